@@ -297,6 +297,12 @@ func runC14(t *testing.T, c c14Cfg) {
 	_ = owned
 	cw.expect("child-add(owned)", []string{ka}, func() { s.MustCreate(cgvr, sim.AddOwner(child("owned1", matchA), cw.pa, true)) })
 	cw.expect("child-update(owned)", []string{ka}, touch(cinfo, cns, "owned1-"+uid))
+	// the owner reference may carry another version of the parent's API group
+	otherVersion := sim.DeepCopy(cw.pa)
+	otherVersion["apiVersion"] = pinfo.Group + "/v1beta7"
+	cw.expect("child-add(owned,owner reference of another API version)", []string{ka}, func() { s.MustCreate(cgvr, sim.AddOwner(child("ownedv", matchA), otherVersion, true)) })
+	cw.expect("child-update(owned,owner reference of another API version)", []string{ka}, touch(cinfo, cns, "ownedv-"+uid))
+	cw.expect("child-delete(owned,owner reference of another API version)", []string{ka}, func() { s.ExtDelete(cgvr, cns, "ownedv-"+uid, "") })
 	cw.expect("child-update-status(owned)", []string{ka}, func() {
 		o := s.Peek(cgvr, cns, "owned1-"+uid)
 		o["status"] = sim.Obj{"ready": true}
